@@ -43,6 +43,15 @@ static LONG_ON_REJECT: std::sync::atomic::AtomicBool = std::sync::atomic::Atomic
 /// The declared extent of the structure at the start of `b` for the parsers whose structure carries its total length
 /// up front (records, handshake messages, single extensions, SCT entries and lists): header size + length field.
 /// "Only the declared bytes matter" can then be stated without any other knowledge of the format.
+/// end of a run of length-prefixed fields (prefix widths in `widths`) that starts at `at`; None if a prefix is cut
+fn walk(b: &[u8], mut at: usize, widths: &[usize]) -> Option<usize> {
+    for &w in widths {
+        let l = b.get(at..at + w)?.iter().fold(0usize, |a, y| (a << 8) | *y as usize);
+        at += w + l;
+    }
+    Some(at)
+}
+
 fn envelope(name: &str, b: &[u8]) -> Option<usize> {
     let be = |r: std::ops::Range<usize>| -> Option<usize> { b.get(r).map(|x| x.iter().fold(0usize, |a, y| (a << 8) | *y as usize)) };
     match name {
@@ -51,6 +60,20 @@ fn envelope(name: &str, b: &[u8]) -> Option<usize> {
         "parse_tls_message_handshake" => be(1..4).map(|l| 4 + l),
         "parse_dtls_message_handshake" => be(9..12).map(|l| 12 + l),
         "parse_ct_signed_certificate_timestamp" | "parse_ct_signed_certificate_timestamp_list" => be(0..2).map(|l| 2 + l),
+        // sequences of length-prefixed fields: the extent is the sum of what the prefixes declare
+        "parse_dh_params" => walk(b, 0, &[2, 2, 2]),
+        "parse_digitally_signed" => walk(b, 2, &[2]),
+        "parse_digitally_signed_old" => walk(b, 0, &[2]),
+        "parse_ecdh_params" => match b.first() {
+            Some(3) => walk(b, 3, &[1]),
+            Some(1) => walk(b, 1, &[1, 1, 1, 1, 1, 1, 1]),
+            _ => None,
+        },
+        "parse_ec_parameters" => match b.first() {
+            Some(3) => (b.len() >= 3).then_some(3),
+            Some(1) => walk(b, 1, &[1, 1, 1, 1, 1, 1]),
+            _ => None,
+        },
         "parse_tls_extension_sni_hostname" | "parse_tls_extensions" => None,
         n if n.starts_with("parse_tls_extension") || n == "parse_tls_client_hello_extension" || n == "parse_tls_server_hello_extension" => be(2..4).map(|l| 4 + l),
         _ => None,
@@ -245,6 +268,7 @@ fn main() {
         sink.merge(struct_sweep(&run, &[&DTLS_RECORD, &DTLS_RECORD_HEADER], &wrapped(&cat::dtls_records(), st), 0, &sfx, 8, &locality));
         sink.merge(struct_sweep(&run, &[&DH_PARAMS], &wrapped(&cat::dh_params(false), st), 0, &sfx, 8, &locality));
         sink.merge(struct_sweep(&run, &[&DH_PARAMS], &cat::dh_relations(), 0, &sfx, 8, &locality));
+        sink.merge(struct_sweep(&run, &[&ECDH_PARAMS, &EC_PARAMETERS], &cat::ecdh_grid(), 0, &sfx, 8, &locality));
         sink.merge(struct_sweep(&run, &[&EC_PARAMETERS, &ECDH_PARAMS], &wrapped(&cat::ecdh_params(), 1), 0, &sfx, 8, &locality));
         sink.merge(struct_sweep(&run, &[&EC_POINT], &wrapped(&cat::ec_points(), 7), 0, &sfx, 8, &locality));
         sink.merge(struct_sweep(&run, &[&SIGNED, &SIGNED_OLD], &wrapped(&cat::signatures(true, false), 1), 0, &sfx, 8, &locality));
